@@ -500,7 +500,12 @@ impl DateFilter for ds::WeekDayRange {
                         .filter(date, ctx);
                 }
 
-                let date = date - Duration::days(*offset);
+                let Some(date) = Duration::try_days(*offset)
+                    .and_then(|offset| date.checked_sub_signed(offset))
+                else {
+                    return false; // the offset is too big to reach a valid date
+                };
+
                 let pos_from_start = (date.day() as u8 - 1) / 7;
                 let pos_from_end = (count_days_in_month(date) - date.day() as u8) / 7;
                 let range_u8 = (*range.start() as u8)..=(*range.end() as u8);
@@ -515,7 +520,12 @@ impl DateFilter for ds::WeekDayRange {
                     ds::HolidayKind::School => &ctx.holidays.school,
                 };
 
-                let date = date - Duration::days(*offset);
+                let Some(date) = Duration::try_days(*offset)
+                    .and_then(|offset| date.checked_sub_signed(offset))
+                else {
+                    return false; // the offset is too big to reach a valid date
+                };
+
                 calendar.contains(date)
             }
         }
@@ -532,14 +542,15 @@ impl DateFilter for ds::WeekDayRange {
                     ds::HolidayKind::School => &ctx.holidays.school,
                 };
 
-                let date_with_offset = date - Duration::days(*offset);
+                let offset = Duration::try_days(*offset)?;
+                let date_with_offset = date.checked_sub_signed(offset)?;
 
                 if calendar.contains(date_with_offset) {
                     date.succ_opt()?
                 } else {
                     calendar
                         .first_after(date_with_offset)
-                        .map(|following| following + Duration::days(*offset))
+                        .and_then(|following| following.checked_add_signed(offset))
                         .unwrap_or_else(|| DATE_END.date())
                 }
             }),
